@@ -33,12 +33,14 @@ type evqWorld struct {
 	pending []int
 	started int
 	bad     []int // handlers that saw something else
+	stopped bool  // stop() has returned
+	late    []int // handlers started after stop() had returned
 	hung    string
 }
 
 func (q *evqWorld) close() {
 	if q != nil && q.v != nil {
-		q.v.Stop()
+		q.v.Finish()
 		q.v = nil
 	}
 }
@@ -97,7 +99,20 @@ func evqExec(w *world, f []string) string {
 			q.window = append(q.window, f[1])
 		}
 		return q.state()
+	case "evqstop", "evqstoprace", "evqfirestop":
+		return q.stop(f[0])
 	case "evqfire":
+		if q.stopped {
+			// the timer expires, no flusher is left to take its value; a handler started now is a violation
+			for i := 0; i < 500; i++ {
+				if running, _ := q.v.Fire(); !running {
+					break
+				}
+				time.Sleep(2 * time.Millisecond)
+			}
+			q.noteLate(20 * time.Millisecond)
+			return q.state()
+		}
 		running, n := q.v.Fire()
 		if running && n > 0 {
 			// the flusher takes the timer's value, flushes and starts handler goroutine `started`
@@ -151,12 +166,119 @@ func evqExec(w *world, f []string) string {
 		}
 		return "batch=" + join(c) + " " + q.state()
 	case "evqhandled":
+		q.noteLate(0)
+		if len(q.late) > 0 {
+			return "started-after-stop:" + joinInts(q.late)
+		}
 		if len(q.bad) > 0 {
 			return "clobbered:" + joinInts(q.bad)
 		}
 		return "ok"
 	}
 	return "bad-op"
+}
+
+// noteLate: handler goroutines that were started although stop() had returned
+func (q *evqWorld) noteLate(wait time.Duration) {
+	if !q.stopped {
+		return
+	}
+	for {
+		select {
+		case k := <-q.v.Entered():
+			q.late = append(q.late, k)
+			q.pending = append(q.pending, k)
+			continue
+		case <-time.After(wait):
+		}
+		return
+	}
+}
+
+func evqBlocked(what string) bool {
+	for _, g := range gocql.VerifEvqGoroutines() {
+		if g == what {
+			return true
+		}
+	}
+	return false
+}
+
+// stop: the real eventDebouncer.stop() on its own goroutine, in one of three schedules. Every wait is for an effect the
+// schedule makes certain on the code that exists; `hung:` after two watchdog windows.
+func (q *evqWorld) stop(kind string) string {
+	if q.stopped {
+		return "bad-op"
+	}
+	var done <-chan struct{}
+	waitDone := func(orStopOnMutex bool) bool {
+		t0 := time.Now()
+		for time.Since(t0) < 2*evqWatchdog {
+			select {
+			case <-done:
+				return true
+			case <-time.After(2 * time.Millisecond):
+			}
+			if orStopOnMutex && evqBlocked("stop:sync.Mutex.Lock") {
+				return false
+			}
+		}
+		return false
+	}
+	flushed := false
+	switch kind {
+	case "evqstop":
+		done = q.v.StopAsync()
+	case "evqstoprace":
+		q.v.HoldMu() // another goroutine is inside debounce()
+		done = q.v.StopAsync()
+		waitDone(true) // the flusher is in its select: it takes the value from quit (stop() never needs the mutex)
+		q.v.FireHeld()
+		q.v.ReleaseMu()
+	case "evqfirestop":
+		q.v.HoldMu()
+		running, n := q.v.FireHeld()
+		if running {
+			t0 := time.Now() // the flusher takes the timer's value and waits for the mutex: committed to flushing
+			for !evqBlocked("flusher:sync.Mutex.Lock") && time.Since(t0) < 2*evqWatchdog {
+				time.Sleep(time.Millisecond)
+			}
+		}
+		done = q.v.StopAsync()
+		t0 := time.Now() // stop() is blocked in its send on quit (the flusher is not in its select)
+		for running && !evqBlocked("stop:chan send") && !evqBlocked("stop:sync.Mutex.Lock") && time.Since(t0) < 2*evqWatchdog {
+			time.Sleep(time.Millisecond)
+		}
+		q.v.ReleaseMu()
+		flushed = running && n > 0
+	}
+	if flushed {
+		select {
+		case k := <-q.v.Entered():
+			q.pending = append(q.pending, k)
+			q.batches[k] = q.window
+			q.window = nil
+			q.started = k + 1
+		case <-time.After(2 * evqWatchdog):
+			q.hung = "hung:no-handler-started"
+			return q.hung
+		}
+	}
+	if !waitDone(false) {
+		q.hung = "hung:stop-did-not-return:" + strings.Join(gocql.VerifEvqGoroutines(), "+")
+		return q.hung
+	}
+	q.stopped = true
+	if kind == "evqstoprace" { // the expiry the stop raced with: nobody takes the timer's value
+		for i := 0; i < 500; i++ {
+			if running, _ := q.v.Fire(); !running {
+				break
+			}
+			time.Sleep(2 * time.Millisecond)
+		}
+		q.noteLate(5 * time.Millisecond)
+	}
+	return "stopped " + q.state()
 }
 
 // runEvQueue generates the schedules: bursts inside one window, events that arrive after a flush while its handler is
@@ -190,8 +312,35 @@ func runEvQueue(r *vh.Rng, out *vh.Out, tier string) {
 			return fmt.Sprintf("x%d", 2+r.Intn(nAddr))
 		}
 		stop := false
+		stopped := false
+		stopAt := -1
 		n := 4 + r.Intn(20)
+		if r.Intn(5) < 2 {
+			stopAt = r.Intn(n) // Session.Close somewhere in the schedule; frames, expiries and handler runs go on after it
+		}
 		for k := 0; k < n && !stop; k++ {
+			if k == stopAt {
+				kind := []string{"evqstop", "evqstoprace", "evqfirestop"}[r.Intn(3)]
+				cls := "empty-buffer"
+				if buffered > 0 {
+					cls = "frames-buffered"
+				}
+				if kind == "evqfirestop" && buffered > 0 {
+					pending = append(pending, started)
+					started++
+					buffered = 0
+				}
+				np := len(pending)
+				if np > 3 {
+					np = 3
+				}
+				a := emit(kind, fmt.Sprintf("evq/%s/%s/%d-handler(s)-pending", kind[3:], cls, np))
+				stopped = true
+				if strings.HasPrefix(a, "hung") || strings.HasPrefix(a, "crash") {
+					stop = true
+				}
+				continue
+			}
 			when := "no-handler-pending"
 			cut := [2]int{55, 90}
 			if len(pending) > 0 {
@@ -213,7 +362,9 @@ func runEvQueue(r *vh.Rng, out *vh.Out, tier string) {
 				buffered++
 			case x < cut[1]:
 				cls := "empty-buffer"
-				if buffered > 0 {
+				if stopped {
+					cls = "AFTER-stop"
+				} else if buffered > 0 {
 					cls = "flush"
 					pending = append(pending, started)
 					started++
@@ -238,10 +389,11 @@ func runEvQueue(r *vh.Rng, out *vh.Out, tier string) {
 			}
 		}
 		if stop {
+			emit("evqhandled", "evqhandled/spec-backed") // the oracle on the history that hung / crashed
 			break
 		}
 		// drain: flush what is buffered, run every pending handler (in a random order), then the oracle
-		if buffered > 0 {
+		if buffered > 0 && !stopped {
 			emit("evqfire", "evq/timer-expires/flush/drain")
 			pending = append(pending, started)
 			started++
